@@ -72,14 +72,14 @@ var fmtDefaults = map[string]string{
 	"uuid": "a8098c1a-f86e-11da-bd1a-00112444be1e", "email": "a@b.example", "ipv4": "10.0.0.1", "password": "s3cret",
 }
 
-var stringFormats = []string{"date", "date-time", "byte", "uuid", "duration", "email", "ipv4", "password", "x-unregistered"}
+var stringFormats = []string{"date", "date", "date-time", "date-time", "byte", "byte", "uuid", "uuid", "duration", "email", "ipv4", "password", "x-unregistered"}
 
 // genScalarType draws a scalar type and format.
 func genScalarType(t *rapid.T) (string, string) {
-	switch rapid.IntRange(0, 9).Draw(t, "ty") {
+	switch rapid.IntRange(0, 11).Draw(t, "ty") {
 	case 0, 1:
 		return "string", ""
-	case 2:
+	case 2, 10, 11:
 		return "string", rapid.SampledFrom(stringFormats).Draw(t, "sfmt")
 	case 3, 4, 5:
 		return "integer", rapid.SampledFrom([]string{"", "int8", "int16", "int32", "int64", "int8", "int16", "int32", "int64", "x-unregistered"}).Draw(t, "ifmt")
